@@ -1,55 +1,23 @@
-import HttpcoreModel.Basic
-import HttpcoreModel.Generated
-import HttpcoreModel.Backoff
+import HttpcoreModel.Drv.C19
+import HttpcoreModel.Drv.C20
 /-!
 Line-protocol driver: one case per input line, one answer per output line.
 First token selects the model function.  Imports model files only (no proofs, no Mathlib).
 -/
 open Httpcore
 
-namespace Drv
-
-def parseOutcome (s : String) : Option (Option Exc) :=
-  if s = "ok" then some none else (Exc.ofName s).map some
-
-def optAll {α} : List (Option α) → Option (List α)
-  | [] => some []
-  | none :: _ => none
-  | some a :: t => (optAll t).map (a :: ·)
-
-def showOp : Backoff.Op → String
-  | .connect => "connect"
-  | .startTls => "start_tls"
-  | .sleep d => s!"sleep:{d}"
-
-def showRes : Backoff.Res → String
-  | .connected => "connected"
-  | .raised e => s!"raised:{e.name}"
-  | .starved => "starved"
-
-def c20 (args : List String) : String :=
-  match args with
-  | [tls, n, outs] =>
-    match n.toNat?, optAll ((commaList outs).map parseOutcome) with
-    | some n, some os =>
-      let r := Backoff.connect (tls = "1") n os
-      s!"ops={joinWith "," (r.1.map showOp)} res={showRes r.2} den={Gen.backoffDen}"
-    | _, _ => "bad-args"
-  | _ => "bad-args"
-
 def dispatch (line : String) : String :=
   match tokens line with
   | [] => "empty"
   | cmd :: args =>
-    if cmd = "c20" then c20 args
+    if cmd = "c20" then Drv.c20 args
+    else if cmd = "c19" then Drv.c19 args
     else "bad-cmd"
-
-end Drv
 
 partial def loop (h : IO.FS.Stream) (out : IO.FS.Stream) : IO Unit := do
   let line ← h.getLine
   if line.isEmpty then return ()
-  out.putStrLn (Drv.dispatch line)
+  out.putStrLn (dispatch line)
   loop h out
 
 def main : IO Unit := do
